@@ -14,6 +14,7 @@ class _Rec:
     def __init__(self):
         self.reset()
     def reset(self):
+        self.obs = []          # (co_qualname, kind, name or None, value): every value observed at a position
         self.pending = {}      # id(frame) -> list of (kind, value) not yet matched with a return event
         self.entry = {}        # id(frame) -> dict name -> value at entry
         self.frames = []       # keep frames alive so ids are never reused
@@ -30,9 +31,15 @@ class _Rec:
         self.frames.append(fr)
         loc = fr.f_locals
         self.entry[id(fr)] = {n: loc[n] for n in names if n in loc}
+        q = fr.f_code.co_qualname
+        for n in names:
+            if n in loc:
+                self.obs.append((q, "param", n, loc[n]))
     def act(self, kind, value=None):
         fr = sys._getframe(1)
         self.pending.setdefault(id(fr), []).append((kind, value))
+        if kind in ("yield", "return"):
+            self.obs.append((fr.f_code.co_qualname, kind, None, value))
 R = _Rec()
 
 class Susp:
@@ -56,9 +63,10 @@ class ProgGen:
     """Builds one program: (source text, number of value slots).  Values are referred to as V[i]; the runner
     fills V with generated runtime values."""
 
-    def __init__(self, rnd: random.Random, nvals: int):
+    def __init__(self, rnd: random.Random, nvals: int, safe_generators: bool = False):
         self.r = rnd
         self.nvals = nvals
+        self.safe_generators = safe_generators
         self.lines = []
         self.plain = []      # (callable expr, arity spec) usable by the workload: list of (expr, call template)
         self.gens = []
@@ -303,6 +311,8 @@ class ProgGen:
             else:
                 g = r.choice(live)
                 how = r.random()
+                if self.safe_generators:
+                    how = how * 0.7 if how < 0.9 else 0.92      # only next / send / list
                 if how < 0.6:
                     op = f"next(live[{g}])"
                 elif how < 0.7:
@@ -320,6 +330,12 @@ class ProgGen:
                 if how >= 0.95:
                     self.w(f"    del live[{g}]")
                     live.remove(g)
+        if self.safe_generators:
+            self.w("    for _g in list(live.values()):")
+            self.w("        try:")
+            self.w("            list(_g)")
+            self.w("        except Boom:")
+            self.w("            pass")
         self.w("    R.act('return', None)")
         self.w("R.reg(main)")
         return "\n".join(self.lines) + "\n"
